@@ -148,7 +148,7 @@ func Judge(want *ref.Result, got *drive.Real) (string, string, Info) {
 	}
 	// no error that the plain execution would not report; errors the plain execution reports but the
 	// deferred execution does not must lie in a part of the response that is null for the client
-	if why := errorsSubset(want.Errors, allErrs, merged); why != "" {
+	if why := errorsSubset(want.Errors, want.LateDropped, allErrs, merged, got.Payloads); why != "" {
 		return "", why, in
 	}
 	if len(nullGroupPaths) == 0 {
@@ -176,17 +176,6 @@ func ownFailure(root *sjson.Value, path []any, errs []ref.ErrExp) bool {
 	if root == nil || root.Kind == sjson.Null {
 		nullAt = 0
 	}
-	under := func(p, prefix []any) bool {
-		if len(p) < len(prefix) {
-			return false
-		}
-		for i := range prefix {
-			if fmt.Sprint(p[i]) != fmt.Sprint(prefix[i]) {
-				return false
-			}
-		}
-		return true
-	}
 	n := 0
 	for _, e := range errs {
 		ep := parsePath(e.Path)
@@ -199,6 +188,18 @@ func ownFailure(root *sjson.Value, path []any, errs []ref.ErrExp) bool {
 		}
 	}
 	return n > 0
+}
+
+func under(p, prefix []any) bool {
+	if len(p) < len(prefix) {
+		return false
+	}
+	for i := range prefix {
+		if fmt.Sprint(p[i]) != fmt.Sprint(prefix[i]) {
+			return false
+		}
+	}
+	return true
 }
 
 // nullAncestor reports whether some proper prefix of path resolves to null in root.
@@ -220,13 +221,28 @@ func nullAncestor(root *sjson.Value, path []any) bool {
 
 // errorsSubset: every reported error is one the plain execution reports (multiset); every error the
 // plain execution reports that is missing lies under a null of the merged data.
-func errorsSubset(plain, got []ref.ErrExp, merged *sjson.Value) string {
+//
+// The second allowance exists because a group that is never delivered leaves the null the initial
+// payload holds for its fields. It does not extend to a position that an incremental payload which
+// DID arrive delivers: that payload computed the position, so the failure of it belongs to its
+// errors (a failure raised only while the payload is written must not get lost).
+func errorsSubset(plain, lateDropped, got []ref.ErrExp, merged *sjson.Value, payloads []*drive.Payload) string {
+	late := map[string]int{}
+	for _, e := range lateDropped {
+		late[e.String()]++
+	}
 	count := map[string]int{}
 	for _, e := range plain {
 		count[e.String()]++
 	}
 	for _, e := range got {
 		if count[e.String()] == 0 {
+			// a failure raised only while a payload is written, at a position the plain execution
+			// never writes (removed by null propagation there; @defer stops propagation earlier)
+			if late[e.String()] > 0 {
+				late[e.String()]--
+				continue
+			}
 			return "an error is reported that the plain execution does not report: " + e.String()
 		}
 		count[e.String()]--
@@ -234,8 +250,17 @@ func errorsSubset(plain, got []ref.ErrExp, merged *sjson.Value) string {
 	for _, e := range plain {
 		if count[e.String()] > 0 {
 			count[e.String()]--
-			if !nullAncestor(merged, parsePath(e.Path)) {
+			pp := parsePath(e.Path)
+			if !nullAncestor(merged, pp) {
 				return "an error of the plain execution is missing although its position is not inside a null part of the merged result: " + e.String()
+			}
+			for i, pl := range payloads {
+				if i == 0 || pl.Data == nil || pl.Data.Kind != sjson.Object || len(pp) <= len(pl.Path) || !under(pp, pl.Path) {
+					continue
+				}
+				if v := resolve(pl.Data, pp[len(pl.Path):]); v != nil && resolve(merged, pp) != nil {
+					return fmt.Sprintf("an error of the plain execution is missing although incremental payload %d (path %s) delivers its position: %s", i, pathKey(pl.Path), e.String())
+				}
 			}
 		}
 	}
